@@ -10,11 +10,19 @@ ENV = ["src/crypto/bign/bign_sign.c", "src/crypto/bign/bign_misc.c", "src/crypto
 STRIP = {"bign/bign_lcl.c": ["bignStart", "bignStart_keep"], "zz/zz_mul.c": ["zzMul", "zzMod"], "math/ec.c": ["!_deep$|^ecNAFWidth$"],
          "math/ecp.c": ["!^ecpIsOnA_deep$"], "belt/belt_compr.c": ["!_deep$"], "belt/belt_hash.c": ["beltHashStart", "beltHashStepH", "beltHashStepG", "beltHashStepG2", "beltHashStepV", "beltHashStepV2"]}
 GROUPS = []
+FN = dict(sign="bignSign", verify="bignVerify", keypairgen="bignKeypairGen", keypairval="bignKeypairVal", pubkeyval="bignPubkeyVal", pubkeycalc="bignPubkeyCalc", dh="bignDH")
 for l in (128, 192, 256):
-    for f in ("sign", "verify"):
+    for f in ("sign", "verify", "keypairgen", "keypairval", "pubkeyval", "pubkeycalc", "dh"):
         GROUPS.append(G("flow.%s.l%d" % (f, l), "harness/C02/flow.c", "h_" + f, ENV, defs=["L=%d" % l], stubs=["stubs/bign_env.c"], strip=STRIP,
                         level="B", bound="security level l = %d (operand size fixed, contents symbolic); callees below the function replaced by their contracts" % l,
-                        unwind=70, native=False, timeout=900, fn=["bign" + f.capitalize()], tier="quick"))
+                        unwind=max(70, l // 2 + 8), native=False, timeout=1500, fn=[FN[f]], tier="thorough" if (f == "dh" and l == 256) else "quick", required=not (f == "dh" and l == 256)))
+ALLSRC = ["src/crypto/bign/bign_sign.c", "src/crypto/bign/bign_misc.c", "src/crypto/bign/bign_keyt.c", "src/crypto/bign/bign_ibs.c",
+          "src/crypto/bign/bign_lcl.c", "src/crypto/bign/bign_params.c"]
+GROUPS.append(G("roundtrip.search", "harness/C02/roundtrip.c", "h_roundtrip", ALLSRC, level="N", backend="native", search=400, timeout=1800,
+                fn=["bignSign", "bignSign2", "bignVerify", "bignKeypairGen", "bignKeypairVal", "bignPubkeyVal", "bignPubkeyCalc", "bignDH",
+                    "bignKeyWrap", "bignKeyUnwrap", "bignIdExtract", "bignIdSign", "bignIdSign2", "bignIdVerify"],
+                note="native ASan/UBSan search over the real stack on the three standard curves: keys, hashes (0, q - 1, q, 2^2l - 1, > q), "
+                     "generator tapes (first block >= q), single-bit alterations; NOT proof"))
 ASSUMPTIONS = []
 TRUSTED = []
 NOT_COVERED = []
